@@ -32,6 +32,8 @@ pub struct PtCfg {
     pub behind_vfs: bool,
     pub seal_size: bool,
     pub killpriv_v2: bool,
+    /// per-file DAX: Config.dax_file_size = Some(8)
+    pub dax: bool,
 }
 
 impl PtCfg {
@@ -48,11 +50,12 @@ impl PtCfg {
             behind_vfs: false,
             seal_size: false,
             killpriv_v2: false,
+            dax: false,
         }
     }
     pub fn label(&self) -> String {
         format!(
-            "{}{}{}{}{}cache{}{}{}{}{}{}",
+            "{}{}{}{}{}cache{}{}{}{}{}{}{}",
             if self.no_open { "noopen," } else { "" },
             if self.no_opendir { "noopendir," } else { "" },
             if self.inode_file_handles { "filehandles," } else { "" },
@@ -64,6 +67,7 @@ impl PtCfg {
             if self.behind_vfs { ",vfs" } else { "" },
             if self.seal_size { ",seal" } else { "" },
             if self.killpriv_v2 { ",killpriv" } else { "" },
+            if self.dax { ",dax" } else { "" },
         )
     }
     /// A list in which every pair of switch values occurs (quick tier).
@@ -94,6 +98,7 @@ impl PtCfg {
                     ext4: bits & 64 != 0,
                     behind_vfs: bits & 128 != 0,
                     killpriv_v2: bits & 256 != 0,
+                    dax: false,
                     cache,
                     seal_size: false,
                 };
@@ -113,6 +118,7 @@ impl PtCfg {
 pub enum Subject {
     Pt(Server<Arc<PassthroughFs>>),
     Vfs(Server<Arc<Vfs>>),
+    Ovl(Server<Arc<fuse_backend_rs::overlayfs::OverlayFs>>),
 }
 
 impl Serve for Subject {
@@ -120,6 +126,7 @@ impl Serve for Subject {
         match self {
             Subject::Pt(s) => s.serve(r, w, vu),
             Subject::Vfs(s) => s.serve(r, w, vu),
+            Subject::Ovl(s) => s.serve(r, w, vu),
         }
     }
 }
@@ -296,6 +303,11 @@ static WORLD_SEQ: std::sync::atomic::AtomicU64 = std::sync::atomic::AtomicU64::n
 impl PtWorld {
     /// Builds the directories, the filesystem and performs INIT. `seed`: populate with the seed tree.
     pub fn new(cfg: &PtCfg, cl: &mut Client, seed: bool) -> PtWorld {
+        Self::new_caps(cfg, cl, seed, CAPABLE_ALL)
+    }
+
+    /// As `new`, with a chosen capability word in INIT.
+    pub fn new_caps(cfg: &PtCfg, cl: &mut Client, seed: bool, caps: u64) -> PtWorld {
         let n = WORLD_SEQ.fetch_add(1, std::sync::atomic::Ordering::Relaxed);
         let base = crate::env::scratch_root(if cfg.ext4 { "ext4" } else { "tmpfs" }).join(format!("w{}", n));
         let _ = std::fs::remove_dir_all(&base);
@@ -336,6 +348,7 @@ impl PtWorld {
             xattr: cfg.xattr,
             seal_size: cfg.seal_size,
             killpriv_v2: cfg.killpriv_v2,
+            dax_file_size: if cfg.dax { Some(8) } else { None },
             ..Config::default()
         };
         let fs = PassthroughFs::<()>::new(pcfg).expect("PassthroughFs::new");
@@ -357,7 +370,7 @@ impl PtWorld {
         };
         let mut w = PtWorld { base, outer, exp, shadow, cfg: cfg.clone(), fs: fsarc, vfs: vfsarc, subj, enabled: 0, _fifo_keep: keep };
         cl.creds(0, 0);
-        let r = cl.init(&w.subj, CAPABLE_ALL);
+        let r = cl.init(&w.subj, caps);
         if r.ok() && r.body.len() >= 24 {
             w.enabled = crate::wire::get(&r.body, &k::FUSE_INIT_OUT, "flags") | if r.body.len() >= 64 { crate::wire::get(&r.body, &k::FUSE_INIT_OUT, "flags2") << 32 } else { 0 };
         }
